@@ -6,14 +6,16 @@ from ..rules import refs, cursor
 def tu_check(tu):
     r = refs.analyse_tu(tu)
     c = cursor.analyse_tu(tu)
-    r["findings"] = r["findings"] + c["findings"]
+    sp = refs.slot_pair(tu)
+    r["findings"] = r["findings"] + c["findings"] + sp["findings"]
     r["stats"]["cursor"] = c["stats"]
+    r["stats"]["slot_stores"] = sp["stores"]
     return r
 
 
 def run(tier="quick", seed=0, use_cache=True):
     res = engine.Result("C16")
-    res.rules = ["LOCAL-REF", "CURSOR-HOLD"]
+    res.rules = ["LOCAL-REF", "CURSOR-HOLD", "SLOT-PAIR"]
     res.explanation = (
         "Ownership dataflow (alias classes with an owned-reference count, "
         "NULL-ness refinement, out-parameter and returns-new-reference "
@@ -24,7 +26,12 @@ def run(tier="quick", seed=0, use_cache=True):
         "including the error exits; a pointer known to be NULL never reaches "
         "Py_DECREF/Py_INCREF. CURSOR-HOLD: every function installed in the "
         "SetIteration.next slot preserves 'cached key owned iff position > 0' "
-        "at every return and never releases it twice (object-key TUs). Decides the local half of 'exactly one "
+        "at every return and never releases it twice (object-key TUs). "
+        "SLOT-PAIR: every COPY_KEY / COPY_VALUE into a container slot of an "
+        "object-keyed / -valued family is followed by exactly one INCREF of "
+        "that slot (copy) or none when the reference is taken over from the "
+        "unused key slot 0 of a new sibling (move), before the slot is "
+        "overwritten or the function returns. Decides the local half of 'exactly one "
         "reference per stored object / no leak on any path'; ownership of "
         "node fields across functions and out-of-bounds accesses need a "
         "sanitizer run and are not decided.")
@@ -50,6 +57,9 @@ def run(tier="quick", seed=0, use_cache=True):
     res.floor("object-key TUs with cursor functions", cur_tus, 5)
     res.floor("cursor key acquire/release events", cur_ev, 50)
     res.count("CURSOR-HOLD", cur_ev)
+    slot = sum(r["stats"]["slot_stores"] for r in out.values())
+    res.floor("key/value slot copies in object families", slot, 100)
+    res.count("SLOT-PAIR", slot)
     res.extra["cursor_accepted_idioms"] = oo["cursor"].get("accepted")
     res.extra["out_owned_summaries_OO"] = oo["out_owned"]
     res.samples = [
